@@ -5,7 +5,7 @@ CONSTANTS
   NodeRefs <- SynNodeRefs
   GhostNodes <- SynGhosts
   QueryTypes <- SynQueryTypes
-  ClassBits = {1, 2, 4}
+  MaskSets <- SynMasksQ
   HasSubtypeId <- HS
   Dev_IgnoreSubtypeFlag = FALSE
   Dev_DeleteLoop = FALSE
